@@ -1,8 +1,33 @@
 """C14: IRC state stays consistent (unique nicks, symmetric membership, no empty channels)."""
+import re
 import irc_check
+import gen_irc
+
+
+def counts(dump):
+    mc = int(re.search(r" mc=(\d+)", dump).group(1))
+    ms = int(re.search(r" ms=(\d+)", dump).group(1))
+    rev = int(re.search(r"CF rev=(\d+)", dump).group(1))
+    return len(re.findall(r"\| C ", dump)), len(re.findall(r"\| S ", dump)), (rev, mc), (rev, ms)
 
 
 def oracle(h, g, l):
+    prev = None       # (index, channels, sessions, mc, ms) at the previous dump of this history
+    for j, (op, go, le) in enumerate(zip(h, g, l)):
+        if op == "R":
+            prev = None
+        if op == "D" and " mc=" in go:
+            nc, ns, mc, ms = counts(go)
+            if prev is not None:
+                pj, pc, ps, pmc, pms = prev
+                # the configured limits: the number of channels / sessions never grows beyond the limit in force
+                if mc[1] > 0 and mc == pmc and nc > pc and nc > mc[1]:
+                    ent = [irc_check.txt(o)[:60] for o in h[pj + 1:j] if o.startswith("E")]
+                    return j, "limit:channels", "%d channels with MaxChannels = %d (there were %d before %s)" % (nc, mc[1], pc, ent[-3:])
+                if ms[1] > 0 and ms == pms and ns > ps and ns > ms[1]:
+                    ent = [irc_check.txt(o)[:60] for o in h[pj + 1:j] if o.startswith("E")]
+                    return j, "limit:sessions", "%d sessions with MaxSessions = %d (there were %d before %s)" % (ns, ms[1], ps, ent[-3:])
+            prev = (j, nc, ns, mc, ms)
     for j, (op, go, le) in enumerate(zip(h, g, l)):
         if op == "W" and go.startswith("walk bad"):
             if "tainted" in le or le == "skipped":
@@ -13,6 +38,30 @@ def oracle(h, g, l):
 
 def check(run):
     n, L = (300, 120) if run.tier == "quick" else (6000, 300)
+    orig = gen_irc.gen_histories
+
+    def with_dumps(rng, commands, n, length, focus=None):
+        hs, kinds = orig(rng, commands, n, length, focus=focus)
+        out = []
+        for k, h in enumerate(hs):
+            if k % 4 == 0:      # a quarter of the histories is dumped after every entry (limits, per entry)
+                hh = []
+                for o in h:
+                    hh.append(o)
+                    if o.startswith("E"):
+                        hh.append("D")
+                out.append(hh)
+            else:
+                out.append(h)
+        return out, kinds
+    gen_irc.gen_histories = with_dumps
+    try:
+        return _check(run, n, L)
+    finally:
+        gen_irc.gen_histories = orig
+
+
+def _check(run, n, L):
     return irc_check.run_property(run, oracle, n, L,
         rule="random histories (sessions, registration, services links with pseudo-clients, all commands x plausible/random shapes, config changes, deletions, message-of-death entries) with the in-package consistency walk after random entries and at the end; non-trivial = history > 5 ops; distinct by op list")
 
